@@ -128,6 +128,16 @@ def run_case(spec):
                     counters['stale_events'] = counters.get('stale_events', 0) + 1
                 continue
             before = dir_state(idx)
+            own_before = set()
+            if os.path.exists(f'{idx}/metadata.json'):
+                try:
+                    for e_ in json.load(open(f'{idx}/metadata.json')).get('canonical_pools', []):
+                        cp_ = e_['cleavage_params']
+                        if dg.Limits(cp_['enzyme'], cp_['exception'], cp_['miscleavage'], cp_['min_mw'], cp_['min_length'],
+                                     cp_['max_length']).key() == k:
+                            own_before.add(e_['filename'])
+                except (ValueError, KeyError):
+                    pass
             nonempty = os.path.isdir(idx) and bool(os.listdir(idx))
             res = run_op(op, p, wd, idx)
             counters['ops'] += 1
@@ -182,10 +192,12 @@ def run_case(spec):
                         bad('update-failed', f'{res}')
                         break
                     model[k] = pool_of(p)
-                    # pools of other keys must be byte-identical
+                    # pools of other keys must be byte-identical: only the file the metadata (as it was BEFORE the operation)
+                    # assigns to these parameters may change
+                    own = own_before
                     for f, h in before.items():
-                        if f.startswith('canonical_peptides_') and f in after and after[f] != h and not (op == 'updf' and k in model):
-                            bad('update-changed-other-pool', f)
+                        if f.startswith('canonical_peptides_') and f in after and after[f] != h and f not in own:
+                            bad('update-changed-other-pool', f'{f} (files of the updated parameters before the operation: {sorted(own)})')
                     lost = [f for f in before if f not in after]
                     if lost:
                         bad('update-removed-files', f'{lost}')
@@ -237,6 +249,24 @@ def run_case(spec):
                 for f in files:
                     if not os.path.exists(f'{idx}/{f}'):
                         bad('metadata-names-missing-file', f)
+        # ---------- final sweep: EVERY registered parameter set must still load exactly its own pool (whatever happened to the
+        # other pools in between), and every other parameter set must still be refused
+        if exists and not stale and not viol:
+            for p_ in PARAMS:
+                k_ = key_of(p_)
+                res = run_op('load', p_, wd, idx)
+                counters['final_loads'] = counters.get('final_loads', 0) + 1
+                if k_ in model:
+                    if res[0] != 'ok':
+                        bad('load-of-registered-parameters-failed', f'final sweep, params {p_}: {res}')
+                    else:
+                        pool = res[1][3]
+                        diff = [x for x in (pool ^ model[k_]) if abs(dg.mass(x) - p_[3]) > 1e-6]
+                        if diff:
+                            bad('loaded-pool-differs', f'final sweep, params {p_}: only loaded {sorted(set(diff) & pool)[:4]} '
+                                                       f'only expected {sorted(set(diff) & model[k_])[:4]}')
+                elif res[0] == 'ok':
+                    bad('load-with-unregistered-parameters-succeeded', f'final sweep, params {p_}; registered {sorted(model)}')
         # ---------- tampered versions
         if exists and not viol and not stale and spec.get('tamper', True):
             mdp = f'{idx}/metadata.json'
@@ -314,11 +344,12 @@ def check(rep, tier, seed, specs=None, n_override=None):
                 '--index-dir} x 5 parameter sets (incl. the pair auto / trypsin_exception that denotes one key, and exception None) on a generated '
                 'reference, executed in-process and compared after every operation with a dictionary model params-key -> definitional pool: loads return '
                 'exactly the model pool or fail, refused operations leave the directory byte-identical, other pools stay byte-identical, metadata lists '
-                'exactly the registered pools, genome/annotation/proteome/coding transcripts load back equal; finally a tampered metadata version must be '
+                'exactly the registered pools, genome/annotation/proteome/coding transcripts load back equal; at the end of every history ALL parameter sets are '
+                'loaded once more (each registered one must return exactly its own pool, the others must be refused); finally a tampered metadata version must be '
                 'rejected. A quarter of the histories contain a version-mismatch event (metadata records another python / biopython / moPepGen '
                 'version, as if written by another environment): afterwards load / update / update --force must be rejected without touching the '
                 'directory, generateIndex refused, and generateIndex --force must rebuild an index that loads again. non-trivial = history executed; distinct = (operation sequence, #keys, refusal seen, hit/miss loads).')
     rep.absorb(results, lost)
-    for k in ('ops', 'loads_hit', 'loads_miss', 'refusals', 'tamper_runs', 'stale_ops', 'stale_rebuilds'):
+    for k in ('ops', 'loads_hit', 'loads_miss', 'refusals', 'tamper_runs', 'stale_ops', 'stale_rebuilds', 'final_loads'):
         if not rep.counters.get(k):
             rep.inconclusive.append(f'monitor {k} had zero evaluations')
